@@ -9,7 +9,7 @@ from . import logic as L
 from . import engine as E
 from . import models as M       # noqa: F401  (installs the native models)
 from .logic import is_sym, FactSink, Rope
-from .engine import Ctx, PyRaise, Undecided, PathLimit, Ref, HObj, HList, HDict, HBytesIO, SOURCE
+from .engine import Ctx, PyRaise, Undecided, PathLimit, PathCut, Ref, HObj, HList, HDict, HBytesIO, SOURCE
 
 PROVED, REFUTED, UNDECIDED = "PROVED", "REFUTED", "UNDECIDED"
 
@@ -223,6 +223,17 @@ def check_valid(ctx, formula, timeout_ms, want_model_vars=None, uf_apps=None):
                 smt2=s.to_smt2() if len(ctx.pc) < 400 else None)
 
 
+def _split(target):
+    parts = target.split(".")
+    for i in range(len(parts), 0, -1):
+        try:
+            importlib.import_module(".".join(parts[:i]))
+            return ".".join(parts[:i]), ".".join(parts[i:])
+        except ImportError:
+            continue
+    raise ImportError(target)
+
+
 def verify_contract(contract, timeout_ms=10000, max_paths=400, only=None):
     """returns dict(obligations=[...], paths=n, calls=..., undecided=[...])"""
     f = resolve_target(contract.target)
@@ -235,6 +246,20 @@ def verify_contract(contract, timeout_ms=10000, max_paths=400, only=None):
     opts = dict(getattr(contract, "opts", {}) or {})
     opts.setdefault("no_summary", set())
     opts["no_summary"] = set(opts["no_summary"]) | {contract.target}
+    if hasattr(contract, "loops"):
+        import ast as _ast
+        mod, qn = _split(contract.target)
+        fd = SOURCE.funcdef(mod, qn)
+        nodes = [n for n in _ast.walk(fd) if isinstance(n, (_ast.For, _ast.While))]
+        nodes.sort(key=lambda n: (n.lineno, n.col_offset))
+        lm = {}
+        for ordinal, spec in contract.loops.items():
+            if ordinal >= len(nodes):
+                results.append(dict(name=f"loop{ordinal}", clause="loops", verdict=UNDECIDED,
+                                    reason=f"function has only {len(nodes)} loops; sidecar invariant for loop {ordinal} has no anchor"))
+                continue
+            lm[id(nodes[ordinal])] = spec
+        opts["loops"] = lm
     opts.setdefault("no_fold", set())
     opts["no_fold"] = set(opts["no_fold"]) | {contract.target}
     while work:
@@ -259,12 +284,24 @@ def verify_contract(contract, timeout_ms=10000, max_paths=400, only=None):
                 runner = lambda: contract.run(ctx, f, args, kwargs, I)      # noqa: E731
             else:
                 runner = lambda: ctx.call_value(f, args, kwargs)            # noqa: E731
+            cut = False
             try:
                 val = runner()
                 out = Outcome("return", value=val)
             except PyRaise as e:
                 out = Outcome("raise", exc_cls=e.exc_cls)
+                out.in_loop_step = ctx.in_loop_step
             except PathLimit:
+                work.extend(ctx.alts)
+                continue
+            except PathCut:
+                cut = True
+            for r0 in ctx.side_results:
+                r0 = dict(r0)
+                r0["name"] = f"{r0['name']}@{pid}"
+                r0["outcome"] = "loop obligation"
+                results.append(r0)
+            if cut:
                 work.extend(ctx.alts)
                 continue
             work.extend(ctx.alts)
@@ -276,13 +313,18 @@ def verify_contract(contract, timeout_ms=10000, max_paths=400, only=None):
                 continue
             # post-conditions
             obls = []
+            ctx.post_mode = True
             try:
                 for item in contract.post(ctx, I, out):
                     obls.append(item)
             except PathLimit:
-                raise Undecided("contract evaluation forked into an infeasible path")
+                # reading the result forked (e.g. a weak reference that may be dead): explore the other side
+                work.extend(ctx.alts[n_alts:])
+                continue
+            finally:
+                ctx.post_mode = False
             if len(ctx.alts) != n_alts:
-                raise Undecided("contract evaluation branched (post-conditions must be formulas)")
+                work.extend(ctx.alts[n_alts:])
             # frame
             allowed = set(contract.modifies(ctx, I)) if hasattr(contract, "modifies") else set()
             diff = heap_diff(snap, ctx.heap)
